@@ -1121,7 +1121,14 @@ func (e *Engine) assertAfterCall(st *State, key string, call *ast.CallExpr, outs
 		if j < 0 || strings.TrimSpace(a[:j]) != key {
 			continue
 		}
-		x, err := spec.Parse(strings.TrimSpace(a[j+1:]))
+		text := strings.TrimSpace(a[j+1:])
+		label := fmt.Sprintf("#%d", i+1)
+		if strings.HasPrefix(text, "[") {
+			if k := strings.Index(text, "]"); k > 0 {
+				label, text = ":"+text[1:k], strings.TrimSpace(text[k+1:])
+			}
+		}
+		x, err := spec.Parse(text)
 		if err != nil {
 			return fmt.Errorf("%s: assert-after-call of %s: %v", e.curCon.File, e.curCon.Key, err)
 		}
@@ -1133,7 +1140,7 @@ func (e *Engine) assertAfterCall(st *State, key string, call *ast.CallExpr, outs
 		if err != nil {
 			return fmt.Errorf("%s: assert-after-call of %s: %v", e.curCon.File, e.curCon.Key, err)
 		}
-		e.oblige(st, "assert", fmt.Sprintf("after-call(%s)#%d", key, i+1), call.Pos(), v.T)
+		e.oblige(st, "assert", fmt.Sprintf("after-call(%s)%s", key, label), call.Pos(), v.T)
 	}
 	return nil
 }
